@@ -135,6 +135,7 @@ func viewIsolationRules(r *Run) {
 }
 
 func runC07(r *Run) {
+	r.CacheInventory([]string{"common/db"}, cacheTriage, "a view must not depend on what was memoised before a rollback or for another identifier")
 	tombstoneAgreement(r)
 
 	// (2) parent check
